@@ -32,15 +32,48 @@ def hasV6 (S : List SubnetDecl) : Bool := S.any fun s => s.net = 0 ∧ s.ones = 
 def famOf (S : List SubnetDecl) : List Rng :=
   S.flatMap rngOf ++ (if hasV4 S then [] else [R4]) ++ (if hasV6 S then [] else [R6a, R6b])
 
-/-- W0, W1, W3 for the subnets of one map. (Until the repair "only ::/0 and 0.0.0.0/0 are default
-routes for the rearranger" a further condition W2 was needed — network `::` only as `::/0`, network
-`::ffff:0:0` only as `0.0.0.0/0` —, see `SubsWFOld`.) -/
+/-- a pseudo range: mask length 0, starting right after the IPv4 range (the upper half of a declared
+`::/0`, or the implicit upper null range) -/
+def isUpper (R : Rng) : Bool := R.lo = afterIPv4 ∧ R.len = 0
+
+/-- some declared block other than `::/0` lies across `afterIPv4` (with W0: a block `::/n`, 0 < n < 80) -/
+def straddle (S : List SubnetDecl) : Bool :=
+  S.any fun s => s.ones ≠ 0 ∧ s.net < afterIPv4 ∧ afterIPv4 < s.net + 2 ^ (128 - s.ones)
+
+/-- the ranges the sweep actually pushes: when a declared block lies across `afterIPv4` the pseudo
+start point there is not pushed (`resumesIPv6`), so the pseudo ranges are no ranges of the family -/
+def famF (S : List SubnetDecl) : List Rng :=
+  if straddle S then (famOf S).filter (fun R => !isUpper R) else famOf S
+
+/-- … and their start points are mere marker events then -/
+def markersOf (S : List SubnetDecl) : List GEv :=
+  if straddle S then ((famOf S).filter isUpper).map (fun R => ⟨R, .start⟩) else []
+
+/-- W0, W1 and the rest of W3 for the subnets of one map.
+History: until the repair "only ::/0 and 0.0.0.0/0 are default routes for the rearranger" a condition W2
+was needed (network `::` only as `::/0`, network `::ffff:0:0` only as `0.0.0.0/0`), see `SubsWFOld`;
+until the repair "an IPv6 range that contains the IPv4 range continues after it" the full W3 (no block
+other than `::/0` and `0.0.0.0/0` contains `::ffff:0:0/96`), see `SubsWFW3`. -/
 structure SubsWF (S : List SubnetDecl) : Prop where
   ones_le : ∀ s ∈ S, s.ones ≤ 128
   net_lt : ∀ s ∈ S, s.net < 2 ^ 128
   /-- W0: host bits are clear (guaranteed by the `%` line parser) -/
   aligned : ∀ s ∈ S, s.net % 2 ^ (128 - s.ones) = 0
   /-- W1: no two subnets with the same (network, length) -/
+  w1 : S.Pairwise fun s t => ¬ (s.net = t.net ∧ s.ones = t.ones)
+  /-- W3′ (what is left of W3): a block that starts below `::ffff:0:0` and ends exactly where the
+  IPv4 range ends — with W0 these are `::/80`, `::8000:0:0/81`, `::c000:0:0/82`, …, `::fffe:0:0/95` —
+  only together with a declared `0.0.0.0/0`. (Otherwise the end point of the implicit IPv4 null range,
+  mask length 0, is sorted after the end point of the block that encloses it.) -/
+  w3 : ∀ s ∈ S, s.net < firstIPv4 → s.net + 2 ^ (128 - s.ones) = afterIPv4 →
+    ∃ t ∈ S, t.net = firstIPv4 ∧ t.ones = 96
+  loc_len : ∀ s ∈ S, s.loc.length = 2
+
+/-- the former well-formedness: W0, W1 and the full W3 -/
+structure SubsWFW3 (S : List SubnetDecl) : Prop where
+  ones_le : ∀ s ∈ S, s.ones ≤ 128
+  net_lt : ∀ s ∈ S, s.net < 2 ^ 128
+  aligned : ∀ s ∈ S, s.net % 2 ^ (128 - s.ones) = 0
   w1 : S.Pairwise fun s t => ¬ (s.net = t.net ∧ s.ones = t.ones)
   /-- W3: no block other than `::/0` (and `0.0.0.0/0` itself) contains `::ffff:0:0/96`; with W0 the
   blocks this excludes are the 95 proper IPv6-family super-blocks of the IPv4 range: `::/n` for
@@ -49,7 +82,19 @@ structure SubsWF (S : List SubnetDecl) : Prop where
     ¬ (s.net ≤ firstIPv4 ∧ afterIPv4 ≤ s.net + 2 ^ (128 - s.ones))
   loc_len : ∀ s ∈ S, s.loc.length = 2
 
-/-- the former, stronger well-formedness: W0–W3 with W2 -/
+theorem SubsWFW3.toWF {S : List SubnetDecl} (h : SubsWFW3 S) : SubsWF S := by
+  refine ⟨h.ones_le, h.net_lt, h.aligned, h.w1, ?_, h.loc_len⟩
+  intro s hs hlt hend
+  exfalso
+  refine h.w3 s hs ?_ ?_ ⟨Nat.le_of_lt hlt, Nat.le_of_eq hend.symm⟩
+  · rintro ⟨h0, ho⟩
+    rw [h0, ho] at hend
+    exact absurd hend (by decide)
+  · rintro ⟨h4, _⟩
+    rw [h4] at hlt
+    exact Nat.lt_irrefl _ hlt
+
+/-- the oldest, strongest well-formedness: W0–W3 with W2 -/
 structure SubsWFOld (S : List SubnetDecl) : Prop where
   ones_le : ∀ s ∈ S, s.ones ≤ 128
   net_lt : ∀ s ∈ S, s.net < 2 ^ 128
@@ -62,10 +107,12 @@ structure SubsWFOld (S : List SubnetDecl) : Prop where
     ¬ (s.net ≤ firstIPv4 ∧ afterIPv4 ≤ s.net + 2 ^ (128 - s.ones))
   loc_len : ∀ s ∈ S, s.loc.length = 2
 
-/-- the former hypotheses imply the present ones -/
-theorem SubsWFOld.toWF {S : List SubnetDecl} (h : SubsWFOld S) : SubsWF S :=
+theorem SubsWFOld.toW3 {S : List SubnetDecl} (h : SubsWFOld S) : SubsWFW3 S :=
   ⟨h.ones_le, h.net_lt, h.aligned, h.w1,
    fun s hs h0 h4 => h.w3 s hs (fun e => h0 ⟨e, (h.w2 s hs).1 e⟩) (fun e => h4 ⟨e, (h.w2 s hs).2 e⟩),
    h.loc_len⟩
+
+/-- the former hypotheses imply the present ones -/
+theorem SubsWFOld.toWF {S : List SubnetDecl} (h : SubsWFOld S) : SubsWF S := h.toW3.toWF
 
 end DnsVerif.Lpm
